@@ -13,13 +13,13 @@ import (
 
 // File parses filename.
 func File(filename string) (*ast.Chain, error) {
-	return cast(parser.ParseFile(filename))
+	return cast(parser.ParseFile(filename, parser.Memoize(true)))
 }
 
 // Reader parses the data from r using filename as information in
 // error messages.
 func Reader(filename string, r io.Reader) (*ast.Chain, error) {
-	return cast(parser.ParseReader(filename, r))
+	return cast(parser.ParseReader(filename, r, parser.Memoize(true)))
 }
 
 // String parses s.
